@@ -649,6 +649,26 @@ def devirtualize_fn_pointers(fns_by_path):
     return n
 
 
+def _uses_local(cj, l):
+    """does any statement or terminator of the raw body read local l"""
+    def mentions(x):
+        if isinstance(x, dict):
+            if x.get('local') == l and 'proj' in x:
+                return True
+            return any(mentions(v) for v in x.values())
+        if isinstance(x, list):
+            return any(mentions(v) for v in x)
+        return False
+    for bl in cj['blocks']:
+        for st in bl['stmts']:
+            if st['k'] == 'assign' and (mentions(st['rv']) or (st['place']['local'] == l and st['place']['proj'])):
+                return True
+        t = bl['term']
+        if mentions({k: v for k, v in t.items() if k not in ('dest',)}):
+            return True
+    return False
+
+
 def desugar_effect_closures(fns_by_path, max_rewrites=40):
     """returns {caller: [closure paths spliced]}"""
     done = {}
@@ -694,6 +714,11 @@ def desugar_effect_closures(fns_by_path, max_rewrites=40):
                 continue
             cj = originals.setdefault(cp, copy.deepcopy(fns_by_path[cp]))
             if (wrap not in ('filter', 'then') and not _closure_has_effects(cj)) or len(cj['blocks']) > 200:
+                continue
+            if wrap == 'filter' and not _closure_has_effects(cj) and _uses_local(cj, 2):
+                # a predicate ABOUT the payload (`.filter(|p| *p < len)`) is a bound on a value: the rules read it from the closure
+                # (c05.closure_comparison).  Only a predicate that ignores the payload - a condition of the surrounding code that
+                # decides whether the option survives - is control flow worth writing out
                 continue
             o = t['args'][0]
             if o.get('k') not in ('copy', 'move') or o['place']['proj']:
